@@ -186,8 +186,13 @@ func extractSnippets(text string) (snippets []*snippet, err error) {
 
 	// add last
 	if start >= 0 {
+		tokenStart := start
+		if inParenthesis {
+			// unterminated quote: the token starts behind the opening quote
+			tokenStart++
+		}
 		snippets = append(snippets, &snippet{
-			text:           prepToken(text[start:]),
+			text:           prepToken(text[tokenStart:]),
 			globalPosition: start + 1,
 		})
 	}
@@ -332,19 +337,21 @@ func parseCondition(firstSnippet *snippet, getSnippet func() (*snippet, error)) 
 	return Where(firstSnippet.text, operator, value.text), nil
 }
 
-var escapeReplacer = regexp.MustCompile(`\\([^\\])`)
+var escapeReplacer = regexp.MustCompile(`(?s)\\(.)`)
 
-// prepToken removes surrounding parenthesis and escape characters.
+// prepToken removes escape characters.
 func prepToken(text string) string {
-	return escapeReplacer.ReplaceAllString(strings.Trim(text, "\""), "$1")
+	return escapeReplacer.ReplaceAllString(text, "$1")
 }
 
 // escapeString correctly escapes a snippet for printing.
 func escapeString(token string) string {
-	// check if token contains characters that need to be escaped
-	if strings.ContainsAny(token, "()\"\\\t\r\n ") {
-		// put the token in parenthesis and only escape \ and "
-		return fmt.Sprintf("\"%s\"", strings.ReplaceAll(token, "\"", "\\\""))
+	// check if token is empty or contains characters that need to be escaped
+	if token == "" || strings.ContainsAny(token, "()\"\\\t\r\n ") {
+		// put the token in parenthesis and escape \ and " within
+		token = strings.ReplaceAll(token, "\\", "\\\\")
+		token = strings.ReplaceAll(token, "\"", "\\\"")
+		return fmt.Sprintf("\"%s\"", token)
 	}
 	return token
 }
